@@ -83,5 +83,10 @@ def run(ctx):
     ctx.rule("C08-R7", "a fault on one peer stream before its preamble is read stays a per-stream event (IO), never a connection-level H3 error")
     shared.uni_upgrade_maps(ctx, "C08-R7")
 
+    ctx.rule("C08-R8", "per-stream faults below the preamble stay per-stream; the public accept calls drain the queue before reporting termination")
+    from rules.C05 import eof_rules
+    eof_rules(ctx, "C08-R8")
+    shared.accept_wrappers(ctx, "C08-R8")
+
     ctx.rule("C08-R6", "a dequeued stream of the session is returned, never refused: only foreign-session streams are stopped")
     shared.driver_session_filters(ctx, "C08-R6", which=("accept_uni", "accept_bi"))
